@@ -14,6 +14,8 @@ pub struct Bv {
     /// "" for the default configuration
     pub variant: &'static str,
     pub args: Vec<&'static str>,
+    /// `multi` variants: further arguments are derived from the world (`multi_args`)
+    pub dynamic: bool,
 }
 
 impl Bv {
@@ -97,6 +99,153 @@ pub fn bvs_format_once() -> Vec<Bv> {
     v
 }
 
+/// C15's configuration space: the codegen-test variants (formatting once) plus, for every
+/// backend that has list-/set-/map-valued options, one `multi` variant that passes every such
+/// option with >= 3 values (so that any hash-ordered container they end up in has several keys).
+/// The values name things of the world at hand and are computed by `multi_args`.
+pub fn bvs_with_multi() -> Vec<Bv> {
+    let mut v = bvs_format_once();
+    let multi: [(&'static str, Vec<&'static str>); 6] = [
+        ("rust", vec!["--generate-all", "--stubs", "--type-section-suffix=multi"]),
+        ("c", vec!["--type-section-suffix=multi"]),
+        ("cpp", vec![]),
+        ("go", vec!["--generate-stubs", "--format=false"]),
+        (
+            "moonbit",
+            vec!["--derive-debug", "--derive-show", "--derive-eq", "--derive-error"],
+        ),
+        (
+            "d",
+            vec![
+                "--emit-export-stubs",
+                "--type-section-suffix=multi",
+                "--required-d-versions=VerA",
+                "--required-d-versions=VerC",
+                "--required-d-versions=VerB",
+            ],
+        ),
+    ];
+    for (backend, args) in multi {
+        v.push(Bv {
+            backend,
+            variant: "multi",
+            args,
+            dynamic: true,
+        });
+    }
+    v
+}
+
+/// World-dependent values for the multi-valued options of `backend`.
+pub fn multi_args(backend: &str, resolve: &Resolve, world: WorldId) -> Vec<String> {
+    use wit_parser::{FunctionKind, TypeDefKind, WorldItem};
+    let w = &resolve.worlds[world];
+    // interfaces of the world by the name the generators know them under
+    let mut imports: Vec<String> = Vec::new();
+    let mut all_ifaces: Vec<String> = Vec::new();
+    // freestanding functions: (is_import, name as `--async` knows it, plain function name)
+    let mut funcs: Vec<(bool, String, String)> = Vec::new();
+    // named record / variant / enum types of interfaces: (selector, first member)
+    let mut types: Vec<(String, String, String)> = Vec::new();
+    for (is_import, items) in [(true, &w.imports), (false, &w.exports)] {
+        for (key, item) in items.iter() {
+            match item {
+                WorldItem::Interface { id, .. } => {
+                    let name = resolve.name_world_key(key);
+                    if is_import {
+                        imports.push(name.clone());
+                    }
+                    if !all_ifaces.contains(&name) {
+                        all_ifaces.push(name.clone());
+                    }
+                    for (_, f) in resolve.interfaces[*id].functions.iter() {
+                        if matches!(f.kind, FunctionKind::Freestanding | FunctionKind::AsyncFreestanding) {
+                            funcs.push((is_import, format!("{name}#{}", f.name), f.name.clone()));
+                        }
+                    }
+                    if let Some(iface_id) = resolve.id_of(*id) {
+                        for (tname, tid) in resolve.interfaces[*id].types.iter() {
+                            let member = match &resolve.types[*tid].kind {
+                                TypeDefKind::Record(r) => r.fields.first().map(|f| f.name.clone()),
+                                TypeDefKind::Variant(v) => v.cases.first().map(|c| c.name.clone()),
+                                TypeDefKind::Enum(e) => e.cases.first().map(|c| c.name.clone()),
+                                _ => None,
+                            };
+                            let sel = format!("{iface_id}/{tname}");
+                            if let Some(m) = member {
+                                if !types.iter().any(|t| t.0 == sel) {
+                                    types.push((sel, m, tname.clone()));
+                                }
+                            }
+                        }
+                    }
+                }
+                WorldItem::Function(f) => {
+                    if matches!(f.kind, FunctionKind::Freestanding | FunctionKind::AsyncFreestanding) {
+                        funcs.push((is_import, f.name.clone(), f.name.clone()));
+                    }
+                }
+                WorldItem::Type { .. } => {}
+            }
+        }
+    }
+    let mut a: Vec<String> = Vec::new();
+    // three `--async` directives, one of each form, on the first three functions
+    let async_directives = |a: &mut Vec<String>| {
+        for (i, (is_import, name, _)) in funcs.iter().take(3).enumerate() {
+            let dir = if *is_import { "import" } else { "export" };
+            a.push(match i {
+                0 => format!("--async={dir}:{name}"),
+                1 => format!("--async={name}"),
+                _ => format!("--async=-{dir}:{name}"),
+            });
+        }
+    };
+    match backend {
+        "rust" => {
+            for d in ["PartialEq", "Hash", "Eq", "PartialOrd"] {
+                a.push(format!("--additional-derive-attributes={d}"));
+            }
+            for t in types.iter().take(3) {
+                a.push(format!("--additional-derive-ignore={}", t.2));
+            }
+            let attrs = ["#[doc = \"zeta\"]", "#[allow(dead_code)]", "#[cfg_attr(test, derive(Debug))]", "#[doc = \"alpha\"]"];
+            for t in types.iter().take(3) {
+                for at in attrs {
+                    a.push(format!("--additional-type-attributes={}={at}", t.0));
+                }
+                for at in attrs {
+                    a.push(format!("--additional-member-attributes={}.{}={at}", t.0, t.1));
+                }
+            }
+            for i in imports.iter().take(3) {
+                a.push(format!("--with={i}=generate"));
+            }
+            // skip the last three functions (the first three carry the async directives)
+            if funcs.len() >= 6 {
+                for f in funcs.iter().rev().take(3) {
+                    a.push(format!("--skip={}", f.2));
+                }
+            }
+            async_directives(&mut a);
+        }
+        "c" => {
+            for (i, name) in all_ifaces.iter().take(3).enumerate() {
+                a.push(format!("--rename={name}=ren{}", ["c", "a", "b"][i]));
+            }
+            async_directives(&mut a);
+        }
+        "cpp" => {
+            for (i, name) in imports.iter().take(3).enumerate() {
+                a.push(format!("--with={name}=custom_{}.h", ["c", "a", "b"][i]));
+            }
+        }
+        "go" | "moonbit" => async_directives(&mut a),
+        _ => {}
+    }
+    a
+}
+
 pub fn all_bvs() -> Vec<Bv> {
     let mut out = Vec::new();
     for (backend, base, variants) in table() {
@@ -104,6 +253,7 @@ pub fn all_bvs() -> Vec<Bv> {
             backend,
             variant: "",
             args: base.clone(),
+            dynamic: false,
         });
         for (variant, extra) in variants {
             let mut args = base.clone();
@@ -112,6 +262,7 @@ pub fn all_bvs() -> Vec<Bv> {
                 backend,
                 variant,
                 args,
+                dynamic: false,
             });
         }
     }
@@ -177,7 +328,18 @@ pub fn generate(
     bv: &Bv,
     out_dir: Option<&PathBuf>,
 ) -> Result<Vec<(String, Vec<u8>)>, String> {
-    let mut generator = build_generator(bv.backend, &bv.args, out_dir)?;
+    let dynamic = if bv.dynamic {
+        multi_args(bv.backend, resolve, world)
+    } else {
+        vec![]
+    };
+    let args: Vec<&str> = bv
+        .args
+        .iter()
+        .copied()
+        .chain(dynamic.iter().map(|s| s.as_str()))
+        .collect();
+    let mut generator = build_generator(bv.backend, &args, out_dir)?;
     let mut resolve = resolve.clone();
     let mut files = Files::default();
     generator
